@@ -249,6 +249,175 @@ def run_reader_bounds(chk, F):
     chk.expect_count('E5w-bounded-fill', 'stores through an iterator in stream-driven loops', n, 2)
 
 
+SCAN_TYPES = {'lf': ('double',), 'f': ('float',), 'd': ('int',), 'i': ('int',), 'u': ('unsigned int', 'unsigned'),
+              'ld': ('long',), 'lu': ('unsigned long', 'std::size_t', 'size_t'), 'zu': ('unsigned long', 'std::size_t',
+                                                                                      'size_t')}
+
+
+def run_scan_types(chk, F):
+    """E5w-scan-type: what a scanf conversion writes has the size of the type the conversion names; the object whose
+    address is passed has that very type (a `T`, where T is the filtration type of the class template, has it only
+    for one T)."""
+    n = 0
+    for f in F.funcs(unit='misc_seq'):
+        if f['inst'] not in (0, 2) or f.get('body') is None or 'Bitmap_cubical_complex' not in f['file']:
+            continue
+        for x in ir.walk(f['body']):
+            if not (ir.is_call(x) and ir.call_name(x) in ('sscanf', 'fscanf', 'scanf')):
+                continue
+            args = ir.call_args(x)
+            fi = [i for i, a in enumerate(args) if (ir.skipcasts(a) or {}).get('k') == 'StringLiteral']
+            if not fi:
+                raise AnalysisBroken('C13: %s: scanf format is not a literal' % f['name'])
+            fmt = ir.skipcasts(args[fi[0]]).get('v')
+            convs = [m.group(2) for m in re.finditer(r'%(\*?)\d*(lf|ld|lu|zu|hh?[du]|[a-zA-Z])', fmt) if not m.group(1)]
+            targets = args[fi[0] + 1:]
+            for cv, t in zip(convs, targets):
+                n += 1
+                u = ir.skipcasts(t)
+                obj = ir.skipcasts(u['c'][0]) if u is not None and u.get('k') == 'UnaryOperator' and u.get('op') == '&' \
+                    else None
+                ty = (obj or {}).get('t', '').replace('const ', '').strip()
+                ok = cv in SCAN_TYPES and ty in SCAN_TYPES[cv]
+                chk.ob('E5w-scan-type', '%s::%s: conversion %%%s stores into an object of type %s' % (
+                    f.get('clsname'), f['name'], cv, '/'.join(SCAN_TYPES.get(cv, ('?',)))),
+                    '%s:%s' % (rel(f['file']), x.get('l')), ok,
+                    '' if ok else '`%s` has type `%s`: %%%s writes sizeof(%s) bytes there whatever the template '
+                    'argument is' % (ir.show(t)[:40], ty or '?', cv, SCAN_TYPES.get(cv, ('?',))[0]),
+                    key='E5w|%s::%s|scan-type' % (f.get('clsname'), f['name']))
+    chk.expect_count('E5w-scan-type', 'scanf conversions in the cubical readers', n, 1)
+
+
+def run_impose_overwrite(chk, F):
+    """E2-impose-overwrite: impose_lower_star_filtration* recompute the value of every lower (upper) cell from the top
+    cells (vertices): a cell reached for the first time takes the value of the cell it is reached from, whatever it
+    held before; only later visits take the min (max). An update guarded by the comparison of the two values alone
+    makes the result depend on the former content of the bitmap (a cell keeps a value no top cell has any more; a
+    bitmap created with the other fill value is never updated)."""
+    n = 0
+    for f in F.funcs(unit='misc_seq'):
+        if f['inst'] not in (0, 2) or f.get('body') is None or not f['name'].startswith('impose_lower_star_filtration'):
+            continue
+        par = ir.parents(f['body'])
+        for x in ir.walk(f['body']):
+            if not (x.get('k') == 'BinaryOperator' and x.get('op') == '='):
+                continue
+            lt = ir.show(x['c'][0]).replace('this->', '')
+            m = re.match(r'data\[(\w+)\]$', lt)
+            if not m:
+                continue
+            cell = m.group(1)
+            guard = None
+            cur = x
+            while id(cur) in par:
+                up = par[id(cur)]
+                if up.get('k') == 'IfStmt':
+                    ct = ir.show(up.get('cond')).replace('this->', '')
+                    if ('data[%s]' % cell) in ct:
+                        guard = up
+                        break
+                if up.get('k') in ('ForStmt', 'CXXForRangeStmt', 'WhileStmt'):
+                    pass
+                cur = up
+            n += 1
+            if guard is None:
+                ok, why = True, ''
+            else:
+                ct = ir.show(guard.get('cond')).replace('this->', '').replace(' ', '').replace('.operatorbool()', '')
+                first = re.search(r'!(\w+)\[%s\]\|\|' % cell, ct) or re.search(r'\(?(\w+)\[%s\]==false\)?\|\|' % cell, ct)
+                marks = first is not None and ir.contains(
+                    f['body'], lambda y: y.get('k') in ('BinaryOperator', 'CXXOperatorCallExpr') and y.get('op') == '='
+                    and ir.show(y).replace(' ', '').strip('()') == '%s[%s]=true' % (first.group(1), cell))
+                ok = bool(first) and marks
+                why = '' if ok else 'the update `%s` is taken only when `%s`: the value the cell held before decides' % (
+                    ir.show(x)[:50], ir.show(guard.get('cond'))[:70])
+            chk.ob('E2-impose-overwrite', '%s::%s: the first visit of `%s` overwrites its former value' % (
+                f.get('clsname'), f['name'], cell), '%s:%s' % (rel(f['file']), x.get('l')), ok, why,
+                key='E2|%s::%s|impose-overwrite' % (f.get('clsname'), f['name']))
+    chk.expect_count('E2-impose-overwrite', 'value updates in impose_lower_star_filtration*', n, 2)
+
+
+def run_zero_side(chk, F):
+    """E3-zero-side: the number of top dimensional cells of a side (`sizes[i]`, unsigned) is 0 for a side of one vertex
+    given with the vertex convention: a stored `sizes[i] - 1` wraps. A function that stores it has left before, on a
+    test `sizes[..] == 0`."""
+    n = 0
+    for f in F.funcs(unit='misc_seq'):
+        if f['inst'] not in (0, 2) or f.get('body') is None or 'Bitmap_cubical_complex_base.h' not in f['file']:
+            continue
+        for x in ir.walk(f['body']):
+            if not (x.get('k') == 'BinaryOperator' and x.get('op') == '='):
+                continue
+            r = ir.skipcasts(x['c'][1])
+            if r is None or r.get('k') != 'BinaryOperator' or r.get('op') != '-':
+                continue
+            a, b = ir.show(ir.skipcasts(r['c'][0])).replace('this->', ''), ir.skipcasts(r['c'][1])
+            if not re.match(r'(\w+->)?sizes\[\w+\]$', a) or b is None or b.get('k') != 'IntegerLiteral':
+                continue
+            n += 1
+            guards = [y for y in ir.walk(f['body']) if y.get('k') == 'IfStmt' and (y.get('l') or 0) < (x.get('l') or 0)
+                      and re.search(r'sizes\[\w+\] == 0', ir.show(y.get('cond')).replace('this->', '')) and
+                      ir.contains(y.get('then'), lambda z: z.get('k') == 'ReturnStmt')]
+            ok = bool(guards)
+            chk.ob('E3-zero-side', '%s::%s stores `%s` only after leaving for a side without top dimensional cell' % (
+                f.get('clsname'), f['name'], ir.show(r)[:40]), '%s:%s' % (rel(f['file']), x.get('l')), ok,
+                '' if ok else 'unsigned `%s` wraps to 2^32 - 1 when the side has no top dimensional cell (one vertex, '
+                'vertex convention): the range built from it does not end' % ir.show(r)[:40],
+                key='E3|%s::%s|zero-side' % (f.get('clsname'), f['name']))
+    chk.expect_count('E3-zero-side', 'stored sizes[i] - 1', n, 1)
+
+
+def run_incidence_validation(chk, F):
+    """E4-incidence-validated: compute_incidence_between_cells announces std::logic_error unless the second cell is a
+    codimension 1 face of the first. `position` (the only coordinate where the two counters differ) starts at -1
+    ("none"): every path that returns a sign has decided that it is not -1 (equal cells), that the coface is an
+    interval there (odd counter) and that the two counters are neighbours there (a `+ 1` comparison of the two)."""
+    fs = [f for f in F.funcs('compute_incidence_between_cells', unit='misc_seq') if f['inst'] in (0, 2) and
+          f.get('body') is not None]
+    if len(fs) < 2:
+        raise AnalysisBroken('C13: compute_incidence_between_cells of the two cubical classes not found')
+    for f in fs:
+        none = [x['n'] for x in ir.walk(f['body']) if x.get('k') == 'VarDecl' and x.get('init') is not None and
+                ir.show(ir.skipcasts(x['init'])).replace(' ', '') in ('-1', '(-1)')]
+        ctr = [x['n'] for x in ir.walk(f['body']) if x.get('k') == 'VarDecl' and x.get('init') is not None and
+               'compute_counter_for_given_cell' in ir.show(x['init'])]
+        if len(none) != 1 or len(ctr) != 2:
+            raise AnalysisBroken('C13: compute_incidence_between_cells: position / counters not recognised')
+        pos, (co, fa) = none[0], ctr
+
+        def cl(x):
+            return []
+        ps = paths.enumerate_paths(f, cl, loop_mode='01', keep_conds=True, cap=60000)
+        bad = None
+        nret = 0
+        for p in ps:
+            if p.end == 'throw':
+                continue
+            nret += 1
+            has_none = odd = adj = False
+            for c, pol, _ in p.conds:
+                if isinstance(c, tuple) or c.get('k') in ('ForStmt', 'CXXForRangeStmt', 'WhileStmt'):
+                    continue
+                t = ir.show(c).replace(' ', '').replace('this->', '')
+                if re.search(r'%s[!=]=\(?-1' % pos, t):
+                    has_none = True
+                if ('%s[%s]%%2' % (co, pos)) in t:
+                    odd = True
+                if ('%s[%s]' % (co, pos)) in t and ('%s[%s]' % (fa, pos)) in t and '+1' in t:
+                    adj = True
+            if not (has_none and odd and adj) and bad is None:
+                bad = (p, has_none, odd, adj)
+        if nret == 0:
+            raise AnalysisBroken('C13: compute_incidence_between_cells never returns')
+        chk.ob('E4-incidence-validated', '%s::compute_incidence_between_cells returns a sign only for a checked '
+               'coface/face pair (%d returning paths)' % (f.get('clsname'), nret), '%s:%d' % (rel(f['file']), f['line']),
+               bad is None, '' if bad is None else 'a path returns %s: the documented std::logic_error is not raised '
+               '(and `%s[%s]` is read with %s == -1 for equal cells)' % (', '.join(w for w, v in (
+                   ('without testing `%s` against -1' % pos, bad[1]), ('without the parity test of the coface', bad[2]),
+                   ('without comparing the two counters as neighbours', bad[3])) if not v), co, pos, pos),
+               key='E4|%s::compute_incidence_between_cells|validated' % f.get('clsname'))
+
+
 def run(tier, replay=None):
     chk = Check('C13', tier,
                 'Static decision of the filtration-order clause of the cubical complex: the comparator handed to the '
@@ -295,6 +464,10 @@ def run(tier, replay=None):
     run_fill_values(chk, F)
     run_coboundary_bounds(chk, F)
     run_reader_bounds(chk, F)
+    run_scan_types(chk, F)
+    run_impose_overwrite(chk, F)
+    run_zero_side(chk, F)
+    run_incidence_validation(chk, F)
     _by = {}
     for _f in F.functions:
         if _f.get('inst') in (0, 2) and _f.get('body') is not None and _f['file'].startswith(facts.REPO):
